@@ -9,6 +9,8 @@ import JaqVerif.C15.Parse
 import JaqVerif.C15.Spec
 import JaqVerif.Gen.C15Group
 import JaqVerif.Lemmas.C15Climb
+import JaqVerif.Lemmas.C15Print
+import JaqVerif.Lemmas.C15Lex
 
 namespace Jaq.C15
 open Spec Gen PrecOp
@@ -37,37 +39,14 @@ theorem levels_homogeneous_observed :
       (groupT[i.val]?.bind (·[i.val]?)) = (groupT[j.val]?.bind (·[j.val]?)) := by
   decide +kernel
 
-/-- the model's operators, in the order of the tables -/
-def modelOps : List BinOp := [
-  .pipe none, .comma, .pipe (some (.var ['$', 'x'])),
-  .assign, .update, .updateMath .add, .updateMath .sub, .updateMath .mul, .updateMath .div, .updateMath .rem, .updateAlt,
-  .alt, .or, .and, .cmp .eq, .cmp .ne, .cmp .lt, .cmp .le, .cmp .gt, .cmp .ge,
-  .math .add, .math .sub, .math .mul, .math .div, .math .rem]
-
-/-- how the model's `Term::climb` groups `a opᵢ b opⱼ c` -/
-def modelGroup (i j : Nat) : Option Bool := do
-  let o1 ← modelOps[i]?
-  let o2 ← modelOps[j]?
-  match Term.climb (.call ['a'] []) [(o1, .call ['b'] []), (o2, .call ['c'] [])] with
-  | .binop (.call _ _) _ (.binop _ _ _) => some true
-  | .binop (.binop _ _ _) _ (.call _ _) => some false
-  | _ => none
-
 /-- the model's `precedence`/`associativity`/`Term::climb` reproduce the real matrix -/
 theorem modelPrec_matrix_eq_groupT :
     ∀ i : Fin 25, ∀ j : Fin 25, (groupT[i.val]?.bind (·[j.val]?)) = modelGroup i.val j.val := by
   decide +kernel
 
-/-- right-associative levels of `impl Op for BinaryOp` -/
-def raLvl (p : Nat) : Bool := p == 0 || p == 2 || p == 3
-
-/-- in the model of `impl Op for BinaryOp`, associativity is a function of the precedence -/
-theorem model_homogeneous (o : BinOp) : ra o = raLvl (prec o) := by
-  cases o with
-  | pipe p => cases p <;> rfl
-  | math m => cases m <;> rfl
-  | cmp c => cases c <;> rfl
-  | _ => rfl
+/-- in the model of `impl Op for BinaryOp`, associativity is a function of the precedence
+(`raLvl p` = `p ∈ {0, 2, 3}`) -/
+theorem model_homogeneous (o : BinOp) : ra o = raLvl (prec o) := binop_homogeneous o
 
 /-! ## 2. Precedence climbing (`prec_climb.rs`), any number of operators
 
@@ -76,6 +55,7 @@ parenthesised term, is opaque); `flat` is the in-order sequence; `Canon` says th
 satisfies the table's local condition (`okL`: what may stand to the left of an operator
 without parentheses, `okR`: to the right). -/
 
+section Climbing
 variable {α O : Type} [PrecOp O]
 
 /-- **no operand or operator is lost or reordered**, for any number of operators -/
@@ -109,5 +89,88 @@ example : Canon (α := Nat) (.bin (.atom 1) (BinOp.math .add) (.bin (.atom 2) (.
   ⟨.bin (.atom 1) (.bin (.atom 2) (.atom 3) (okL_atom _ _) (okR_atom _ _)) (okL_atom _ _)
     (by intro o' h; simp only [rootOp, Option.some.injEq] at h; subst h; left; decide),
    fun o _ => model_homogeneous o⟩
+
+end Climbing
+
+/-! ## 3. The parser inverts the printer: parentheses the table implies may be added or removed
+
+`PT` (C15/Print.lean): operator trees over simple operands with explicit parenthesis nodes;
+`PT.toks` prints them (a parenthesised subtree is a `Block` token), `PT.erase` drops the
+parentheses.  `PT.Ok p`: wherever two operators meet without parentheses between them, the
+table's local condition holds (`okL`/`okR`), i.e. the parenthesisation *includes the required
+ones*; any number of additional (redundant, nested) parentheses is allowed. -/
+
+/-- **Parsing the printed form gives the program back**, for operator trees of any size and any
+parenthesisation that includes the required parentheses: inserting implied or redundant
+parentheses never changes the program.  (Operators: all but bindings; see `as_extends_right`.) -/
+theorem parse_print (p : PT) (h : PT.Ok p) : parseToks p.toks = some p.erase := by
+  have hs := size_le_sizes h
+  have := term_toks p.size p (Nat.le_refl _) h (parseFuel p.toks) (by unfold parseFuel; omega) [] trivial
+  unfold parseToks
+  rw [List.append_nil] at this
+  rw [this]
+  rfl
+
+/-- two parenthesisations of the same program parse to the same AST -/
+theorem parens_irrelevant (p q : PT) (hp : PT.Ok p) (hq : PT.Ok q) (he : p.erase = q.erase) :
+    parseToks p.toks = parseToks q.toks := by
+  rw [parse_print p hp, parse_print q hq, he]
+
+/-- the hypotheses are satisfiable: `((a)) * (1 + $x) | b`, i.e. `PT.Ok` of
+`bin (bin (paren (paren a)) * (paren (bin 1 + $x))) | b` -/
+example : PT.Ok (.bin (.bin (.paren (.paren (.leaf (.call ['a'])))) (.math .mul)
+      (.paren (.bin (.leaf (.num ['1'])) (.math .add) (.leaf (.var ['$', 'x']))))) (.pipe none) (.leaf (.call ['b']))) := by
+  refine .bin _ _ _ (.bin _ _ _ (.paren _ (.paren _ (.leaf _ (by unfold Leaf.Ok; decide)))) (.paren _ (.bin _ _ _ (.leaf _ (by unfold Leaf.Ok; decide)) (.leaf _ (by unfold Leaf.Ok; decide)) rfl ?_ ?_)) rfl ?_ ?_) (.leaf _ (by unfold Leaf.Ok; decide)) rfl ?_ ?_
+  all_goals first
+    | exact okL_atom _ _
+    | exact okR_atom _ _
+    | (intro o' h; simp only [PT.toE, rootOp, Option.some.injEq] at h; subst h; left; decide)
+
+/-! ## 4. Bindings extend as far right as possible; white space and comments do not matter -/
+
+/-- **`… as $x | …` is `… as $x | (…)`**: at the first binding, everything that follows becomes
+its body (climbed on its own), whatever operators follow; to its left the regular table applies
+(the binding is the last item of the outer climb, with precedence 2). -/
+theorem as_extends_right (head : Term) (pre : List (BinOp × Term)) (pat : Pattern) (tm : Term)
+    (rest : List (BinOp × Term)) (hpre : ∀ ot ∈ pre, ot.1.isAs = false) :
+    Term.climb head (pre ++ (.pipe (some pat), tm) :: rest)
+      = climb Term.binop head (pre ++ [(.pipe (some pat), Term.climb tm rest)]) := by
+  unfold Term.climb
+  congr 1
+  induction pre with
+  | nil => simp [wrapAs, BinOp.isAs]
+  | cons hd tl ih =>
+    obtain ⟨o, t⟩ := hd
+    have ho : o.isAs = false := hpre (o, t) (by simp)
+    simp only [List.cons_append, wrapAs, ho, Bool.false_eq_true, if_false]
+    rw [ih (fun ot h => hpre ot (by simp [h]))]
+
+/-- **white space, newlines and comments (with continuation lines) in front of a token are
+skipped**: the lexer finds the same token (or the same error, or the same end of input) and
+the same remaining input — at every place where it looks for a token: in front of the next
+token (`token`, `tokens`), in front of a closing delimiter, and at the end of the input. -/
+theorem lex_trivia_irrelevant_partial {tr : Str} (h : Trivia tr) :
+    (∀ f s, token f (tr ++ s) = token f s) ∧
+    (∀ f s, tokens f (tr ++ s) = tokens f s) ∧
+    (∀ f o s, block (f + 3) o (tr ++ closeOf o :: s) = some (.block o [.sym [closeOf o]], s)) ∧
+    space tr = [] :=
+  ⟨token_trivia h, tokens_trivia h, block_close_trivia h, space_trivia_end h⟩
+/- Full statement (not proved): for every list of tokens `ts` (words, variables, numbers, symbols,
+   strings, nested blocks) and every choice of trivia `trᵢ` between them that is non-empty where
+   two lexemes would otherwise be glued,  lex (tr₀ ++ lexeme t₁ ++ tr₁ ++ … ++ lexeme tₙ ++ trₙ) = some ts.
+   Missing: the maximal-munch lemmas per token class ("a lexeme followed by trivia or by a
+   non-gluing character is cut exactly at its end"); the correspondence renders every tree with
+   random trivia instead. -/
+
+/-- the comment rule, concretely: `# a \⏎ b ⏎` is one comment (continuation line);
+` # a \\⏎⇥` is a comment that ends at the first newline -/
+example : Trivia ['#', ' ', 'a', ' ', '\\', '\n', ' ', 'b', ' ', '\n'] ∧
+    Trivia [' ', '#', ' ', 'a', ' ', '\\', '\\', '\n', '\t'] := by
+  constructor
+  · exact .comment [' ', 'a', ' ', '\\', '\n', ' ', 'b', ' ', '\n'] []
+      (.cont [' ', 'a', ' ', '\\'] [' ', 'b', ' ', '\n'] (by decide) (by decide)
+        (.last [' ', 'b', ' '] (by decide) (by decide))) .nil
+  · exact .ws ' ' _ (by decide) (.comment [' ', 'a', ' ', '\\', '\\', '\n'] ['\t']
+      (.last [' ', 'a', ' ', '\\', '\\'] (by decide) (by decide)) (.ws '\t' _ (by decide) .nil))
 
 end Jaq.C15
